@@ -91,7 +91,7 @@ type Contracts struct {
 }
 
 var clauseKeywords = map[string]bool{
-	"func": true, "prop": true, "arith": true, "requires": true, "ensures": true, "onpanic": true, "callback": true, "decreases": true, "covers": true, "globals_readonly": true, "delegates": true, "abstraction": true, "repinv": true, "uses": true,
+	"func": true, "prop": true, "arith": true, "requires": true, "ensures": true, "onpanic": true, "callback": true, "decreases": true, "covers": true, "globals_readonly": true, "delegates": true, "no_callers": true, "abstraction": true, "repinv": true, "uses": true,
 	"modifies": true, "invariant": true, "nopanic": true, "trusted": true, "pure": true,
 	"specfn": true, "let": true, "assume": true, "typeinv": true, "protect": true,
 	"monotone": true, "results": true, "assert": true, "package": true, "sweep": true,
@@ -177,7 +177,7 @@ func parseContractFile(path string, pkgPath string, assumed bool, cs *Contracts)
 				return fmt.Errorf("%s: duplicate specfn %s", rc.pos, sf.Name)
 			}
 			cs.SpecFns[sf.Name] = sf
-		case "covers", "globals_readonly", "delegates", "typeinv", "repinv", "protect", "monotone", "axiom", "ghostfield", "ghostarray", "frame", "lemma", "reads_not", "readafter":
+		case "covers", "globals_readonly", "delegates", "no_callers", "typeinv", "repinv", "protect", "monotone", "axiom", "ghostfield", "ghostarray", "frame", "lemma", "reads_not", "readafter":
 			cs.Decls = append(cs.Decls, PkgDecl{Kind: rc.kw, Pkg: curPkg, Text: text, Pos: rc.pos, Props: props})
 		default:
 			if cur == nil {
